@@ -427,9 +427,13 @@ func (c *wsConn) handleChanClose(frame frame) {
 }
 
 func (c *wsConn) handleResponse(frame frame) {
+	// Hold inflightLk until the response is delivered: closeInFlight (run when
+	// the connection is torn down or re-established, always before closeChans)
+	// then either finds this request still in flight or not at all, so a
+	// channel sink can never be registered after closeChans has run.
 	c.inflightLk.Lock()
+	defer c.inflightLk.Unlock()
 	req, ok := c.inflight[frame.ID]
-	c.inflightLk.Unlock()
 	if !ok {
 		log.Error("client got unknown ID in response")
 		return
@@ -458,9 +462,7 @@ func (c *wsConn) handleResponse(frame frame) {
 		ID:      frame.ID,
 		Error:   frame.Error,
 	}
-	c.inflightLk.Lock()
 	delete(c.inflight, frame.ID)
-	c.inflightLk.Unlock()
 }
 
 func (c *wsConn) handleCall(ctx context.Context, frame frame) {
@@ -735,8 +737,8 @@ func (c *wsConn) handleWsConn(ctx context.Context) {
 
 	// on close, make sure to return from all pending calls, and cancel context
 	//  on all calls we handle
-	defer c.closeInFlight()
 	defer c.closeChans()
+	defer c.closeInFlight()
 
 	// setup pings
 
